@@ -19,6 +19,16 @@ def witnessMaskedInplaceVector : List Op := [.alloc [7, 8], .iaddVector 2 3]
 def witnessConvert : List Op :=
   [.alloc [10, 11], .alloc [0, 1], .getmask 0 1, .convert 2, .getitem 3 0]
 
+/-- `a = IntArray([1,2]); a.makeReadOnly(); a.ifelse(IntArray([0,1]), 9)` -/
+def witnessIfelseReadOnly : List Op := [.alloc [1, 2], .makeReadOnly 0, .alloc [0, 1], .ifelseScalar 0 1 9]
+
+/-- `a = IntArray([10,11,12]); m = a[IntArray([1,1,0])]; m[IntArray([1,0])] = 7` -/
+def witnessMaskOnMasked : List Op :=
+  [.alloc [10, 11, 12], .alloc [1, 1, 0], .getmask 0 1, .alloc [1, 0], .setScalarMask 2 3 7]
+
+/-- `IntArray(0)[::-1]` -/
+def witnessEmptyBackward : List Op := [.alloc [], .getslice 0 (.slice none none (some (-1)))]
+
 def idxLine : PyIdx → String
   | .int i => s!"i:{i}"
   | .slice a b c =>
@@ -49,6 +59,9 @@ def Op.line : Op → String
 def witnesses : List (String × List Op) :=
   [("masked-inplace-scalar", witnessSetup ++ witnessMaskedInplaceScalar),
    ("masked-inplace-vector", witnessSetup ++ witnessMaskedInplaceVector),
-   ("convert-from-masked", witnessConvert)]
+   ("convert-from-masked", witnessConvert),
+   ("slice-empty-backward", witnessEmptyBackward),
+   ("ifelse-readonly", witnessIfelseReadOnly),
+   ("mask-on-masked", witnessMaskOnMasked)]
 
 end ImathVerif.FixedArray
